@@ -1585,3 +1585,156 @@ Example C09_chain_id_cases_nonvacuous :
   Start ex_parse (fun _ => BHttp 503 BNotJson) (-1)%Z = (Err EStart, [net_version_frame]) /\
   Start ex_parse (fun _ => BConnFail) 2022%Z = (Ok 2022%Z, []).
 Proof. vm_compute. repeat split; reflexivity. Qed.
+
+(* ================================================================================================
+   11. Wave 6.
+   (a) The hypothesis [0 <= chain] of section 9 replaced by one on the inputs only: "the process came up"
+       — Start, for the configuration and whatever backend answered during start-up, returned this chain id.
+   (b) REFEREE 4: batch alignment over an interleaving machine with an EXPLICIT shared slot array
+       (Rpc/BatchMachine.v).  Each member goroutine is the three-instruction program of rpchandler.go
+       (compute into registers; store into rpcResponses[i]; send on the channel), a schedule is ANY list of
+       goroutine numbers, the handler replies with the array as it is at its last receive.  The theorem is
+       about this program, not about the machine: the same machine runs the two historical seeds (send before
+       store; append in completion order) and they break alignment (Example C09_batch_machine_discriminates).
+       The machine is also run in the correspondence check (code 8) under a schedule built from the forced
+       completion order.
+   ================================================================================================ *)
+From FFS Require Import Rpc.W6Chain Rpc.BatchMachine.
+
+(* 11a. A chain id the process comes up with is never negative: it lies in [0, 2^63), or it is the configured
+        (non-negative) one. *)
+Theorem C09_started_chain_in_range :
+  forall parse_int backend0 configured chain frames0,
+    Start parse_int backend0 configured = (Ok chain, frames0) ->
+    (0 <= chain < 9223372036854775808)%Z \/ ((0 <= configured)%Z /\ chain = configured).
+Proof. exact started_nonneg. Qed.
+Print Assumptions C09_started_chain_in_range.
+
+(* 11b. C09_end_to_end without [0 <= chain]: for the chain id Start returned (backend0 = the backend as it
+        answered during start-up; it need not be the backend of the later requests). *)
+Theorem C09_end_to_end_started :
+  forall (doc tsig : Type) (o : group_ops) (H : bytes -> bytes) (nonce : Z -> bytes -> nat -> Z) (fuel : nat)
+         (E0 : W.ext N (transaction * Z) bytes doc tsig) (c : W.config) parse_int lex backend0 configured backend chain frames0,
+    laws o -> (n o < Secp.Model.two256)%Z -> (forall x, length (H x) = 32%nat) ->
+    Start parse_int backend0 configured = (Ok chain, frames0) ->
+    reader_yields (with_signer o H nonce fuel E0) (key_in_range o) ->
+    forall fs (hist : list request),
+      let E := with_signer o H nonce fuel E0 in
+      Forall (fun x : W.state N * bytes * res http_reply =>
+                let '(s, body, reply) := x in
+                (exists h, s = fs_state E c fs h) /\
+                forall status tree traces frames fr,
+                  reply = Ok (status, tree, traces) -> In frames traces -> In fr frames -> is_raw_frame fr = true ->
+                  exists rq, In (Some rq) (members_of lex body) /\
+                    ((rq_method rq = bs "eth_sendRawTransaction" /\ fr = mkFrame (rq_method rq) (rq_params rq)) \/
+                     (rq_method rq = bs "eth_sendTransaction" /\
+                      submission_specified o H nonce fuel E0 c parse_int backend chain s rq fr)))
+             (serve E c parse_int lex backend chain (W.init_state N fs) hist).
+Proof. exact end_to_end_started. Qed.
+Print Assumptions C09_end_to_end_started.
+
+(* 11c. ... and with the hash instantiated by the executable Keccak-256: hypotheses left are laws o, n o < 2^256,
+        the process came up, reader_yields. *)
+Theorem C09_end_to_end_keccak_started :
+  forall (doc tsig : Type) (o : group_ops) (nonce : Z -> bytes -> nat -> Z) (fuel : nat)
+         (E0 : W.ext N (transaction * Z) bytes doc tsig) (c : W.config) parse_int lex backend0 configured backend chain frames0,
+    laws o -> (n o < Secp.Model.two256)%Z ->
+    Start parse_int backend0 configured = (Ok chain, frames0) ->
+    reader_yields (with_signer o keccak256 nonce fuel E0) (key_in_range o) ->
+    forall fs (hist : list request),
+      let E := with_signer o keccak256 nonce fuel E0 in
+      Forall (fun x : W.state N * bytes * res http_reply =>
+                let '(s, body, reply) := x in
+                (exists h, s = fs_state E c fs h) /\
+                forall status tree traces frames fr,
+                  reply = Ok (status, tree, traces) -> In frames traces -> In fr frames -> is_raw_frame fr = true ->
+                  exists rq, In (Some rq) (members_of lex body) /\
+                    ((rq_method rq = bs "eth_sendRawTransaction" /\ fr = mkFrame (rq_method rq) (rq_params rq)) \/
+                     (rq_method rq = bs "eth_sendTransaction" /\
+                      submission_specified o keccak256 nonce fuel E0 c parse_int backend chain s rq fr)))
+             (serve E c parse_int lex backend chain (W.init_state N fs) hist).
+Proof. exact end_to_end_keccak_started. Qed.
+Print Assumptions C09_end_to_end_keccak_started.
+
+(* 11d. The machine, for the program of rpchandler.go and EVERY schedule (any list of goroutine numbers, any
+        interleaving of the members' computes, stores and sends): it never panics (every index is in range), and
+        if the handler replied, it replied with slot i = the response of member i for every i and status 500 iff
+        some member failed.  [outs] are the members' outcomes (11e supplies them). *)
+Theorem C09_batch_machine_aligned :
+  forall (outs : list outcome) (sch : list nat),
+    mrun real_prog outs sch (minit (length outs)) <> Panic /\
+    forall st, mrun real_prog outs sch (minit (length outs)) = Ok st ->
+      forall s sl, m_reply st = Some (s, sl) ->
+        s = (if existsb o_err outs then 500%N else 200%N) /\ sl = map o_resp outs.
+Proof. exact machine_aligned. Qed.
+Print Assumptions C09_batch_machine_aligned.
+
+(* 11e. Batch alignment for every interleaving: the batch handler over the machine, any schedule that lets the
+        handler reply. *)
+Theorem C09_batch_alignment_any_interleaving :
+  forall parse_int lex accounts sign_with backend chain body t members sch r,
+    lex body = Some t -> decode_batch t = Ok members -> members <> [] ->
+    handleRPCBatch_m parse_int lex accounts sign_with backend chain real_prog body sch = Ok r ->
+    exists outs,
+      Forall2 (fun m o => processRPC parse_int accounts sign_with backend chain m = Ok o) members outs /\
+      r = (if existsb o_err outs then 500%N else 200%N,
+           JArr (map (fun o => response_opt_tree (o_resp o)) outs),
+           map (fun o => snd o) outs).
+Proof. exact batch_alignment_m. Qed.
+Print Assumptions C09_batch_alignment_any_interleaving.
+
+(* 11f. The machine and the sequential model of Rpc/Model.v (the one every other theorem speaks about) agree:
+        whatever the machine handler answers under any schedule, rpcHandler answers under every completion order. *)
+Theorem C09_batch_machine_agrees :
+  forall parse_int lex accounts sign_with backend chain body sch r,
+    rpcHandler_m parse_int lex accounts sign_with backend chain real_prog body sch = Ok r ->
+    forall order,
+      (forall t ms, lex body = Some t -> decode_batch t = Ok ms -> Permutation order (seq 0 (length ms))) ->
+      rpcHandler parse_int lex accounts sign_with backend chain body order = Ok r.
+Proof. exact handler_m_agrees. Qed.
+Print Assumptions C09_batch_machine_agrees.
+
+(* non-vacuity of 11d-11f: the batch of C09_batch_nonvacuous under an interleaved schedule (member 2 computes and
+   stores first, member 0 computes, member 1 runs to its end, ...; receives in the order 1, 2, 0) and under the
+   schedule the correspondence run builds for the completion order 2,0,1: the handler replies, aligned. *)
+Example C09_batch_machine_nonvacuous :
+  let body := ascii_bytes "[..]" in
+  let t := JArr [JObj [(bs "id", JStr (bs "a")); (bs "method", JStr (bs "eth_blockNumber"))];
+                 JObj [(bs "id", JNum (bs "2")); (bs "method", JStr (bs "eth_accounts"))];
+                 JObj [(bs "method", JStr (bs "eth_call"))]] in
+  exists trees traces,
+    rpcHandler_m ex_parse (fun _ => Some t) [ex_addr] ex_sign ex_backend 2022%Z real_prog body [2; 2; 0; 1; 1; 1; 2; 0; 0]%nat
+    = Ok (500%N, JArr trees, traces) /\
+    rpcHandler_m ex_parse (fun _ => Some t) [ex_addr] ex_sign ex_backend 2022%Z real_prog body (sched_of_order [2; 0; 1]%nat)
+    = Ok (500%N, JArr trees, traces) /\
+    map (tree_member (bs "id")) trees = [Some (JStr (bs "a")); Some (JNum (bs "2")); Some JNull] /\
+    (* a schedule that is not a behaviour (member 0 moves four times) and an incomplete one are reported as such *)
+    rpcHandler_m ex_parse (fun _ => Some t) [ex_addr] ex_sign ex_backend 2022%Z real_prog body [0; 0; 0; 0]%nat = Err ESched /\
+    rpcHandler_m ex_parse (fun _ => Some t) [ex_addr] ex_sign ex_backend 2022%Z real_prog body [0; 0; 0; 1; 1; 1]%nat = Err ESched.
+Proof.
+  cbv zeta. eexists. eexists.
+  split; [vm_compute; reflexivity|].
+  split; [vm_compute; reflexivity|].
+  split; [vm_compute; reflexivity|].
+  split; vm_compute; reflexivity.
+Qed.
+
+(* the conclusion of 11d is not true by construction of the machine: two other programs on the same machine.
+   Send before store (seed #19): both members send, the handler replies, and only then the stores happen — the
+   client gets two nulls.  Append in completion order (seed #2): member 1 finishes first and its response lands in
+   slot 0. *)
+Example C09_batch_machine_discriminates :
+  let o0 : outcome := (Some (RPCErrorResponse (Some (JNum (bs "10"))) RPCCodeInternalError), true, []) in
+  let o1 : outcome := (Some (RPCErrorResponse (Some (JNum (bs "11"))) RPCCodeInvalidRequest), false, []) in
+  (exists st, mrun prog_send_first [o0; o1] [0; 1; 0; 1; 0; 1]%nat (minit 2) = Ok st /\
+              m_reply st = Some (500%N, [None; None]) /\ m_slots st = [o_resp o0; o_resp o1]) /\
+  (exists st, mrun prog_append [o0; o1] [1; 1; 1; 0; 0; 0]%nat (minit 2) = Ok st /\
+              m_reply st = Some (500%N, [o_resp o1; o_resp o0])) /\
+  (exists st, mrun real_prog [o0; o1] [1; 1; 1; 0; 0; 0]%nat (minit 2) = Ok st /\
+              m_reply st = Some (500%N, [o_resp o0; o_resp o1])).
+Proof.
+  cbv zeta. split; [|split].
+  - eexists. split; [vm_compute; reflexivity|]. split; vm_compute; reflexivity.
+  - eexists. split; [vm_compute; reflexivity|]. vm_compute; reflexivity.
+  - eexists. split; [vm_compute; reflexivity|]. vm_compute; reflexivity.
+Qed.
